@@ -26,7 +26,7 @@ type fmtResult struct {
 func c15(args []string) {
 	c := chk.New("C15", "exploration", args)
 	c.Build(false)
-	c.Rule("in-process batches (subject mode 'fmt'): tasks are built through NewProc / SetOut / NewTask exactly as the library does at run time and Task.Command and the out-IP paths are compared with a reference implementation of docs/writing_workflows.md (placeholders replaced at every occurrence; basename, dirname, %suffix, s/a/b/ left to right; ../ rule for inputs; temp encoding of outputs; joined ports; Prepend) and of the README's default-name rule; exhaustive part: every guard-respecting modifier chain of length <= 2 over the value alphabets for i / p / t placeholders in commands and in output patterns; random part: 1-4 placeholders, repeated placeholders, chains <= 3, joined ports, two outputs; missing values (empty parameter, absent tag, absent input, empty tag) must end the child with non-zero status, one child per case; extensions that contain dots ({o:out|.txt.gz}), streaming {os:} placeholders, SetOut patterns below absolute / parent-relative / nested directories. distinct_nontrivial = distinct (pattern, value) cases with at least one modifier or repeated placeholder whose result was compared")
+	c.Rule("in-process batches (subject mode 'fmt'): tasks are built through NewProc / SetOut / NewTask exactly as the library does at run time and Task.Command and the out-IP paths are compared with a reference implementation of docs/writing_workflows.md (placeholders replaced at every occurrence; basename, dirname, %suffix, s/a/b/ left to right; ../ rule for inputs; temp encoding of outputs; joined ports; Prepend) and of the README's default-name rule; exhaustive part: every guard-respecting modifier chain of length <= 2 over the value alphabets for i / p / t placeholders in commands and in output patterns; random part: 1-4 placeholders, repeated placeholders, chains <= 3, joined ports, two outputs; missing values (empty parameter, absent tag, absent input, empty tag) must end the child with non-zero status, one child per case; extensions that contain dots ({o:out|.txt.gz}), streaming {os:} placeholders, in-ports that receive a streamed file (the placeholder is the FIFO's path, modifiers apply to it), directory inputs spelled with a trailing slash (default names), SetOut patterns below absolute / parent-relative / nested directories. distinct_nontrivial = distinct (pattern, value) cases with at least one modifier or repeated placeholder whose result was compared")
 	c.Assume("only what the documentation fixes is judged: s/a/b/ with <= 1 occurrence of a, %suffix shorter than the value, basename / dirname on values containing '/' without trailing '/'")
 	rng := c.Rand("c15")
 	var cases []*gen.FmtCase
@@ -69,6 +69,31 @@ func c15(args []string) {
 				In: map[string]string{"in1": "d/f.txt"}, Params: map[string]string{"k": v}, Tags: map[string]string{"in1.tg": v}})
 			nExh++
 		}
+	}
+	// streamed in-ports: the placeholder stands for the FIFO's path and the modifiers apply to that; output patterns and
+	// default names keep using the file's path
+	for vi, v := range []string{"d/f.txt", "data/s.in.txt", "../up/t.txt", "x.dat"} {
+		for ci, ch := range gen.AllChains(v+".fifo", maxLen) {
+			if !c.Thorough() && (ci+vi)%3 != 0 {
+				continue
+			}
+			m := ""
+			for _, x := range ch {
+				m += "|" + x
+			}
+			fc := &gen.FmtCase{Proc: "strm", Cmd: "tool {i:in1" + m + "} label={i:in1" + m + "} > {o:out|.txt}", Outs: map[string]string{}, In: map[string]string{"in1": v}, InStream: map[string]bool{"in1": true}}
+			if ci%2 == 0 {
+				fc.Outs["out"] = "o_{i:in1|basename}.x"
+			}
+			add(fc)
+			nExh++
+		}
+	}
+	// directory inputs spelled with a trailing slash: the default name starts with the directory's name
+	for _, v := range []string{"indata/d1/", "indata/d2/", "d3/", "../up/dd/", "a/b.c/"} {
+		add(&gen.FmtCase{Proc: "lister", Cmd: "ls {i:in1} > {o:listing|.txt}", Outs: map[string]string{}, In: map[string]string{"in1": v}})
+		add(&gen.FmtCase{Proc: "lister", Cmd: "ls {i:in1} {i:in2} > {o:listing}", Outs: map[string]string{}, In: map[string]string{"in1": v, "in2": "x/" + v}, Params: map[string]string{}})
+		nExh += 2
 	}
 	c.Set("exhaustive_chain_cases", nExh)
 	if c.Thorough() {
